@@ -667,9 +667,16 @@ class CFG:
                 self._node('store_name', arg, ce.lineno, name=prm, value=arg, stmt=ce, inlined_param=True)
             self.res, self.cur_scope = Resolver(t), t
             self._cm_stack.append(frame)
+            # (a callable handed to the helper - `_undo_on_error(_cleanup, ...)` ... `undo()` - is followed like one handed
+            # to an inlined function)
+            cmc = _Ctx('cm', node=ce)
+            cmc.callables = {prm: arg for prm, arg in binding if isinstance(arg, (ast.Name, ast.Attribute, ast.Lambda))}
+            cmc.caller_scope, cmc.scope, cmc.renamed, cmc.binding = saved_scope, t, {}, dict(binding)
+            self.ctx.append(cmc)
             try:
                 self._build_body(t.node.body)
             finally:
+                self.ctx.remove(cmc)
                 self._cm_stack.pop()
                 self.res, self.cur_scope = saved_res, saved_scope
                 self._inlining.pop()
@@ -1102,6 +1109,9 @@ class CFG:
         if t is None or t.is_async or t.qualname in self._inlining or len(self._inlining) >= 4:
             return None
         decs = [Resolver(t.parent or t).path(d) or dotted(d) or '' for d in t.decorators]
+        if len(decs) == 2 and decs[0].split('.')[-1] == 'staticmethod' and skip_self:
+            decs = decs[1:]
+            skip_self = False
         if len(decs) != 1 or not decs[0].endswith('contextmanager'):
             return None
         ys = [x for x in own_nodes(t.node) if isinstance(x, (ast.Yield, ast.YieldFrom))]
@@ -1147,8 +1157,8 @@ class CFG:
     #  * with inline_methods: private, non-overridden methods of the same class
     def _inline_target(self, e: ast.Call, awaited: bool, _depth: int = 0, any_module_helper: bool = False):
         f = e.func
-        ic0 = next((c for c in reversed(self.ctx) if c.kind == 'inline'), None)
-        if any(isinstance(a, ast.Starred) for a in e.args) and ic0 is not None and not any(k.arg is None for k in e.keywords):
+        ic0 = next((c for c in reversed(self.ctx) if c.kind == 'inline' or (c.kind == 'cm' and getattr(c, 'scope', None) is self.cur_scope)), None)
+        if any(isinstance(a, ast.Starred) for a in e.args) and ic0 is not None and ic0.kind == 'inline' and not any(k.arg is None for k in e.keywords):
             # `hook(*args)` inside an inlined `def helper(hook, *args)`: the caller's extra arguments, which travel as a
             # tuple display, are spread again
             flat: List[ast.expr] = []
@@ -1179,12 +1189,12 @@ class CFG:
                 (getattr(ic0, 'renamed', {}).get(f.id, f.id) if ic0 is not None else f.id) in self.cur_scope.params:
             # a parameter of the helper being inlined that the caller bound to one of its own functions
             # (`self._helper(_load, x)` ... `await loader(item)`): the call is a call of that function, seen from the caller
-            ic = next((c for c in reversed(self.ctx) if c.kind == 'inline'), None)
+            ic = ic0
             bound = getattr(ic, 'callables', {}).get(f.id) if ic is not None else None
             host = getattr(ic, 'caller_scope', None)
             # a callable handed down through several inlined helpers (`_buffer_once(load)` -> `_load_next_or_run(load)`):
             # follow the chain of bindings outwards to the scope that owns the function
-            ics = [c for c in reversed(self.ctx) if c.kind == 'inline']
+            ics = [c for c in reversed(self.ctx) if c.kind in ('inline', 'cm')]
             k_ = 1
             while isinstance(bound, ast.Name) and host is not None and k_ < len(ics):
                 oc = ics[k_]
